@@ -16,7 +16,8 @@ from __future__ import annotations
 
 from hsverif.coq import Ctor, Nat, Raw, SomeV, term
 
-FLOAT_DELAYS = [0.0, 0.0, 1e-9, 2.9e-7, 0.001, 0.29, 0.5, 1.0, 2, 0.1, 0.3]
+FLOAT_DELAYS = [0.0, 0.0, 1e-9, 2.9e-7, 0.001, 0.29, 0.5, 1.0, 2, 0.1, 0.3,
+                1.9e-9, 0.1234567897, 7.5e-10]      # sub-nanosecond parts: the engine truncates, it does not round
 
 
 def ns_of(d) -> int:
@@ -119,7 +120,8 @@ def gen_script(rng, futures=True, max_pre=12, allow_cycles=True):
     # or as duration= (end_time = start_time + duration)
     start = 0
     if rng.random() < 0.25:
-        start = rng.choice([1_000_000_000, 2_500_000_000, 7])
+        # (10^16 ns = 116 days: float seconds no longer resolve single nanoseconds there)
+        start = rng.choice([1_000_000_000, 2_500_000_000, 7, 10_000_000_000_000_000])
         for ps in pre:
             ps["time"] += start
         if end is not None:
